@@ -62,6 +62,60 @@ def k1_murmur2(src, lengths):
         src.check(ok, f"murmur2 differs from Java Utils.murmur2 for a key of length {n}", length=n)
 
 
+def java_murmur2_int32(data: bytes) -> int:
+    """Java Utils.murmur2 with explicit int32 wrap-around (second, plain-Python transcription)"""
+    def i32(x):
+        x &= 0xFFFFFFFF
+        return x - (1 << 32) if x & 0x80000000 else x
+
+    def ushr(x, n):
+        return (x & 0xFFFFFFFF) >> n
+
+    n = len(data)
+    m = 0x5BD1E995
+    h = i32(0x9747B28C ^ n)
+    for i in range(n // 4):
+        i4 = i * 4
+        k = (data[i4] & 0xFF) + ((data[i4 + 1] & 0xFF) << 8) + ((data[i4 + 2] & 0xFF) << 16) + ((data[i4 + 3] & 0xFF) << 24)
+        k = i32(k)
+        k = i32(k * m)
+        k = i32(k ^ ushr(k, 24))
+        k = i32(k * m)
+        h = i32(h * m)
+        h = i32(h ^ k)
+    base = n & ~3
+    r = n % 4
+    if r == 3:
+        h = i32(h ^ ((data[base + 2] & 0xFF) << 16))
+    if r >= 2:
+        h = i32(h ^ ((data[base + 1] & 0xFF) << 8))
+    if r >= 1:
+        h = i32(h ^ (data[base] & 0xFF))
+        h = i32(h * m)
+    h = i32(h ^ ushr(h, 13))
+    h = i32(h * m)
+    h = i32(h ^ ushr(h, 15))
+    return h
+
+
+PATTERN = [0x00, 0x7F, 0x80, 0xFF]
+
+
+def k1b_high_bit_patterns(src, length):
+    """every high-bit pattern of the last block and the tail bytes, as real bytes objects (covers code that
+    hands the key to C-level helpers, which the symbolic run cannot follow)"""
+    vary = min(length, 4 + length % 4)
+    key = bytearray(b"\x21" * length)
+    for j in range(vary):
+        key[length - 1 - j] = PATTERN[src.choice(f"b{j}", 4)]
+    key = bytes(key)
+    got = murmur2(key)
+    want = java_murmur2_int32(key) & 0xFFFFFFFF
+    if src.twin:
+        want ^= 1
+    src.check(isinstance(got, int) and got == want, f"murmur2 differs from Java Utils.murmur2 for key {key.hex()}", key=key.hex())
+
+
 class _Poison:
     """`available` must not influence a keyed record."""
     def __init__(self):
@@ -185,7 +239,13 @@ def harnesses(tier):
             symbolic_vars=f"every byte of the key (8-bit vectors) for each length in {g[0]}..{g[-1]}",
             bounds={"key_lengths": [g[0], g[-1]], "values": "all 256^n byte strings of each length"},
             note="real murmur2 executed on symbolic bytes; compared bit for bit with an int32 transcription of Java Utils.murmur2",
-            twin_max_paths=5, parallel=False, solver_timeout_ms=8000))
+            twin_max_paths=5, parallel=False, solver_timeout_ms=8000, max_seconds=25, max_paths=400))
+    for n in (range(0, 8) if q else range(0, 12)):
+        hs.append(Harness(name=f"K1b_high_bit_patterns_len{n}", fn=k1b_high_bit_patterns, params={"length": n},
+                          functions=[murmur2], shape="K",
+                          symbolic_vars="finite-domain choices: each of the last 4..7 bytes of the key from {00, 7f, 80, ff}",
+                          bounds={"length": n}, note="concrete keys (exhaustive over the pattern space); complements the symbolic K1",
+                          twin_max_paths=20))
     counts = list(range(1, 65)) if q else list(range(1, 1001))
     cg = [counts[i:i + (16 if q else 50)] for i in range(0, len(counts), (16 if q else 50))]
     for g in cg:
